@@ -22,7 +22,7 @@ func isBlackTag(s string) bool {
 
 	switch sUpperWithoutNulls {
 	// anything SVG or XSL(t) related
-	case "SVT", "XSL":
+	case "SVG", "XSL":
 		return true
 	default:
 		return false
